@@ -85,3 +85,12 @@ func ProfileMock(avoid map[string]string) *Profile {
 	return &Profile{Name: "mock", MaxDataMessages: 2, MaxFields: 4, Maps: true, Optionals: true, Repeateds: true, Enums: true, MessageFields: true, Timestamps: true,
 		MaxServices: 2, MaxMethods: 2, Transport: true, BasePaths: true, Headers: true, Examples: true, NoClient: true, Avoid: avoid}
 }
+
+// ProfileOpenAPI: everything that shapes OpenAPI documents.
+func ProfileOpenAPI(avoid map[string]string) *Profile {
+	p := ProfileFull(avoid)
+	p.Name = "openapi"
+	p.MultiFeature = false
+	p.HostileNames = false
+	return p
+}
